@@ -335,7 +335,12 @@ fn session_case(idx: u64, rng: &mut Prng, col: &mut Collector) {
         let kind = *rng.pick(&KINDS);
         let kind = if kind == FK::ExactMax && !matches!(reg, regions::Reg::EU868 | regions::Reg::EU433 | regions::Reg::IN865) { FK::Fresh1 } else { kind };
         let Some(b1) = build_frame(&net, last, kind, rng) else { continue };
-        let classc = front == Front::AsyncC && rng.chance(1, 4) && b1.kind != FK::Oversize && b1.kind != FK::ExactMax;
+        // (Class C listening runs at the RX2 rate - the plan's default one here -, so frames at and beyond
+        // its size limit are heard there too)
+        let classc = front == Front::AsyncC && rng.chance(1, 4);
+        if classc && matches!(b1.kind, FK::Oversize | FK::ExactMax) {
+            col.event("size_limit_frames_in_classc");
+        }
         let in_rx2 = rng.bool();
         // the window's data rate decides whether an oversized frame is *clearly* oversized:
         // only generate it for RX2 of regions whose default RX2 rate is SF12/SF10 (limit <= 123+)
